@@ -317,6 +317,9 @@ def_op(loc, "SET_FUNCTION_ATTRIBUTE", 106, 2 , 1)
 
 ### update opinfo tables
 # completely redefined tables
+# 3.13 renumbered the pseudo opcodes: SETUP_CLEANUP, SETUP_FINALLY, SETUP_WITH
+loc["hasexc"] = [264, 265, 266]
+
 loc["hasarg"] = [
     45,
     46,
